@@ -81,6 +81,7 @@ fn slot_exprs() -> Vec<(&'static str, Expr)> {
         ("parenthesised", paren(var("sv"))),
         ("type function", call(tprop(var("sv"), "type"), vec![])),
         ("counter", call(var("tick"), vec![])),
+        ("call that rebinds the variable other slots read", call(var("resv"), vec![])),
         ("function literal called", call(func(vec![], false, vec![ret(string("f"))]), vec![])),
         ("literal with escapes", ex(EK::Str(vec![('q', Spell::Raw), ('"', Spell::Esc), ('\\', Spell::Esc), ('n', Spell::Raw)]))),
         ("literal ending in a backslash", ex(EK::Str(vec![('C', Spell::Raw), (':', Spell::Raw), ('\\', Spell::Esc)]))),
@@ -106,6 +107,7 @@ fn prelude() -> Vec<Stmt> {
         fn_decl("id", vec![var("x")], false, vec![ret(var("x"))]),
         declare(var("cnt"), string("")),
         fn_decl("tick", vec![], false, vec![op_assign(var("cnt"), Op::Sum, string("i")), ret(var("cnt"))]),
+        fn_decl("resv", vec![], false, vec![assign(var("sv"), bin(Op::Sum, var("sv"), string("!"))), ret(string("r"))]),
     ]
 }
 
@@ -178,6 +180,68 @@ fn interp_cases(ctx: &Ctx, parts: Vec<StrPart>, note: &str) -> Vec<(Case, bool)>
 
 fn text(syms: &[(char, Spell)]) -> StrPart { StrPart::Text(syms.to_vec()) }
 
+// An interpolated literal is an expression like any other: wherever a string
+// may stand (computed key of a literal / of a pattern in all four binding
+// positions, index, argument, element, operand, iterable, receiver) it must
+// behave as the concatenation of its pieces does there.
+fn context_cases(ctx: &Ctx) -> Vec<(Case, bool)> {
+    let raw = |s: &str| StrPart::Text(s.chars().map(|c| (c, natural_spell(c))).collect());
+    let slot = |e: Expr| StrPart::Slot(Box::new(e));
+    let lits: Vec<Vec<StrPart>> = vec![
+        vec![slot(var("sv")), raw("_name")],
+        vec![raw("<"), slot(var("sv")), raw(">é"), slot(var("sv"))],
+        vec![slot(call(var("id"), vec![var("sv")]))],
+        vec![raw("k"), slot(ex(EK::Interp(vec![slot(var("sv")), raw("日")])))],
+        vec![raw("日"), slot(var("sv")), slot(bin(Op::Sum, var("sv"), string("x")))],
+        vec![raw("plain")],
+    ];
+    let mut out = vec![];
+    for parts in lits {
+        let l = ex(EK::Interp(parts.clone()));
+        let c = paren(concat_of(&parts));
+        let build = |k: &Expr| -> Vec<Stmt> {
+            let mut s = prelude();
+            // The source object is built with the concatenation in both variants.
+            s.push(declare(var("srcob"), obj(vec![])));
+            s.push(assign(index(var("srcob"), c.clone()), int(5)));
+            s.push(assign(index(var("srcob"), string("other")), int(6)));
+            // Computed key of an object literal; index read, write, op-assign.
+            s.push(pv(obj(vec![Prop::Pair(k.clone(), int(1)), pair("z", int(2))])));
+            s.push(pv(index(var("srcob"), k.clone())));
+            s.push(op_assign(index(var("srcob"), k.clone()), Op::Sum, int(10)));
+            s.push(pv(var("srcob")));
+            // Key of a pattern: declaration, assignment, for target, parameter.
+            s.push(declare(obj(vec![Prop::Pair(k.clone(), var("got1")), Prop::Single{e: var("rest1"), spread: false, collect: true}]), var("srcob")));
+            s.push(pv(list(vec![var("got1"), var("rest1")])));
+            s.push(declare(var("got2"), int(0)));
+            s.push(assign(obj(vec![Prop::Pair(k.clone(), var("got2"))]), var("srcob")));
+            s.push(pv(var("got2")));
+            s.push(for_(list(vec![var("_"), obj(vec![Prop::Pair(k.clone(), var("got3"))])]), list(vec![var("srcob")]), vec![pv(var("got3"))]));
+            s.push(fn_decl("take", vec![obj(vec![Prop::Pair(k.clone(), var("got4"))])], false, vec![ret(var("got4"))]));
+            s.push(pv(call(var("take"), vec![var("srcob")])));
+            // Argument, element, operand, iterable, receiver, range index.
+            s.push(pv(call(var("id"), vec![k.clone()])));
+            s.push(pv(index(list(vec![k.clone()]), int(0))));
+            s.push(pv(bin(Op::Eq, k.clone(), c.clone())));
+            s.push(declare(var("nb"), int(0)));
+            s.push(for_(list(vec![var("_"), var("_")]), k.clone(), vec![op_assign(var("nb"), Op::Sum, int(1))]));
+            s.push(pv(var("nb")));
+            s.push(pv(call(tprop(k.clone(), "type"), vec![])));
+            s.push(pv(bin(Op::Eq, range_index(k.clone(), Some(int(0)), Some(int(1))), range_index(c.clone(), Some(int(0)), Some(int(1))))));
+            s
+        };
+        let (pa, pb) = (Prog::new(build(&l)), Prog::new(build(&c)));
+        let (sa, sb) = (print::print_canonical(&pa), print::print_canonical(&pb));
+        ctx.label("interpolated literal in every string context");
+        let ra = interp::run(&pa);
+        if let Some(e) = ref_expect(&sa, &ra, DiagLevel::None) {
+            out.push((Case{property: "C15".into(), kind: "context".into(), srcs: vec![sa.src.clone().into_bytes()], pred: Pred::Expect(e), note: "interpolated literal as key / index / pattern key / argument / operand / iterable / receiver".into()}, true));
+        }
+        out.push((Case{property: "C15".into(), kind: "context_equals_concat".into(), srcs: vec![sa.src.into_bytes(), sb.src.into_bytes()], pred: Pred::Same{same_msg: false, positions: None}, note: "the same program with the concatenation written out".into()}, true));
+    }
+    out
+}
+
 fn exhaustive_small(ctx: &Ctx) -> Vec<(Case, bool)> {
     let al = alphabet();
     let slots = slot_exprs();
@@ -203,6 +267,17 @@ fn exhaustive_small(ctx: &Ctx) -> Vec<(Case, bool)> {
                 let (_, s1) = &slots[(i + j) % slots.len()];
                 let (_, s2) = &slots[(j * 3 + k + 1) % slots.len()];
                 jobs.push(vec![text(l), StrPart::Slot(Box::new(s1.clone())), text(m), StrPart::Slot(Box::new(s2.clone())), text(r)]);
+            }
+        }
+    }
+    // Three (and four) slots without text over {sv, resv(), cnt, tick(),
+    // id(sv)}: slots whose evaluation changes what the other slots read.
+    let effect_slots = [var("sv"), call(var("resv"), vec![]), var("cnt"), call(var("tick"), vec![]), call(var("id"), vec![var("sv")])];
+    for a in &effect_slots {
+        for b in &effect_slots {
+            for c in &effect_slots {
+                jobs.push(vec![StrPart::Slot(Box::new(a.clone())), StrPart::Slot(Box::new(b.clone())), StrPart::Slot(Box::new(c.clone()))]);
+                jobs.push(vec![text(&[('<', Spell::Raw)]), StrPart::Slot(Box::new(a.clone())), text(&[('é', Spell::Raw)]), StrPart::Slot(Box::new(b.clone())), StrPart::Slot(Box::new(c.clone())), StrPart::Slot(Box::new(a.clone())), text(&[('>', Spell::Raw)])]);
             }
         }
     }
@@ -363,6 +438,7 @@ pub fn run(ctx: &Ctx) {
     ctx.judge_all(cases, Via::Fast, None);
     ctx.judge_all(lexical_errors(ctx), Via::Cli, None);
     ctx.judge_all(large_literals(ctx), Via::Cli, None);
+    ctx.judge_all(context_cases(ctx), Via::Cli, None);
     plain_cases(ctx, ctx.n(3_000, 600_000));
     let n = ctx.n(20_000, 6_000_000);
     let via = if ctx.tier == Tier::Quick { Via::Cli } else { Via::Fast };
